@@ -165,6 +165,9 @@ Proof.
   symmetry. apply Zpower_mod. pose proof W_val. lia.
 Qed.
 
+Lemma w_exp_wrap' a y : 0 <= y < W -> w_exp (wrap a) y = wrap (a ^ y).
+Proof. intros Hy. rewrite <- (w_exp_wrap a y Hy). rewrite (wrap_small y) by exact Hy. reflexivity. Qed.
+
 Lemma special_pow_range T a y : ty_ok T -> in_range T a -> special_base a = true -> 0 <= y -> in_range T (a ^ y).
 Proof.
   intros OkT Ha S Hy. pose proof (range_M T a OkT) as [HM RA]. pose proof (range_M T (a ^ y) OkT) as [_ RY].
@@ -290,7 +293,7 @@ Proof.
       destruct (Z.ltb_spec r y) as [G|G]; pstep.
       * rewrite chk_rev_pow; [reflexivity|]. intros F. apply PB in F; lia.
       * rewrite chk_val_pow; [|apply PB; lia]. cbn [enc_out]. unfold enc. f_equal.
-        rewrite <- (wrap_small y) at 1 by lia. apply w_exp_wrap. lia.
+        unfold enc; first [apply w_exp_wrap | apply w_exp_wrap']; lia.
 Qed.
 
 Theorem vpow_exp_exact T b lo hi x : ty_ok T -> in_range T x -> in_range T b -> 0 <= b ->
@@ -322,5 +325,5 @@ Proof.
       destruct (Z.ltb_spec hi x); pstep;
         first [rewrite chk_rev_pow; [reflexivity | intros F; apply BB in F; lia]
               | rewrite chk_val_pow; [|apply BB; lia]; cbn [enc_out]; unfold enc; f_equal;
-                rewrite <- (wrap_small x) at 1 by lia; exact EXP].
+                rewrite <- EXP; rewrite (wrap_small x) by lia; reflexivity].
 Qed.
